@@ -29,6 +29,16 @@ pub fn run(seed: u64, count: usize, _thorough: bool, out: &mut Out) {
             let _ = a.set_pos(q);
             last = q;
         }
+        // every third structure: a second model that repeats the chain names far away from the first
+        if i % 3 == 1 {
+            if let Some(m) = p.model(0).cloned() {
+                let mut far = m;
+                let shift = TransformationMatrix::translation(*rng.pick(&[400.0, -300.0, 0.0]), *rng.pick(&[250.0, 0.0]), 125.0);
+                far.apply_transformation(&shift);
+                far.set_serial_number(9);
+                p.add_model(far);
+            }
+        }
         let psx = snap::pdb(&p, &snap::atom);
         let n_atoms = p.total_atom_count();
         // bounding box
